@@ -129,7 +129,7 @@ func (ex *Exec) finish(st *State, fr *Frame, res Value) {
 			ex.Specs.Errors = append(ex.Specs.Errors, fmt.Sprintf("%s: ensures %q: %s", en.Line, en.Src, strings.Join(errs, "; ")))
 			continue
 		}
-		ob := &Obligation{Name: ex.clauseName(fr.Fn, "post", en, i), Kind: "post", Goal: t, Props: en.Props, Fn: fr.Fn.String(), Note: en.Line}
+		ob := &Obligation{Name: ex.clauseName(fr.Fn, "post", en, i), Kind: "post", Goal: t, Props: en.Props, Fn: fr.Fn.String(), Note: en.Line, Clause: en, Entry: fr.Fn.String()}
 		ex.record(st, ob)
 	}
 	if ct.HasAssign {
